@@ -10,6 +10,7 @@ iterates a Python `set`, reuses a module-level cache, or mutates an object durin
   external       select_one_external + external_choices sheet, with or without `external_choices_header`
   search         search() appearance, alone (itemset redirect mutated on the survey) or mixed (error text)
   dup_id         settings with both id_string and form_id (input dict mutated: F23)
+  dyn_default    the same default strings on date-like and other questions (cached token lists are shared)
   entities       entities sheet (get_nsmap appends to survey.namespaces: F36)
   missing_header required header absent (error text built from a set)
   twin           the same rows with every group <-> repeat swapped (same names/xpaths, different tree:
@@ -26,7 +27,7 @@ import gen
 LANG_POOL = ["en", "fr", "de", "sw", "English (en)", "French (fr)", "es", "pt"]
 FEATURES = [
     "sparse_itext", "pulldata", "or_other", "instance_label", "external", "external_nohdr", "search",
-    "search_mixed", "dup_id", "entities", "missing_header", "plain",
+    "search_mixed", "dup_id", "entities", "missing_header", "dyn_default", "plain",
 ]
 
 
@@ -86,12 +87,19 @@ def add_pulldata(rng, form):
             r["default"] = "pulldata('dflt', 'a', 'b', 'c')"
 
 
-def add_or_other(rng, form):
+def add_or_other(rng, form, langs=()):
+    if not any(r.get("type", "").startswith(("select_one ", "select_multiple ")) and "choice_filter" not in r
+               for r in form["survey"]):
+        form.setdefault("choices", []).extend(
+            {"list_name": "oolist", "name": f"o{i}", **_lab(list(langs), f"O{i}")} for i in range(rng.randint(1, 3)))
+        form["survey"].append({"type": "select_one oolist", "name": "oo_sel", **_lab(list(langs), "OO")})
+    first = True
     for r in form["survey"]:
         t = r.get("type", "")
-        if t.startswith(("select_one ", "select_multiple ")) and "choice_filter" not in r and rng.random() < 0.6:
+        if t.startswith(("select_one ", "select_multiple ")) and "choice_filter" not in r and (first or rng.random() < 0.6):
             if " or_other" not in t and len(t.split()) == 2:
                 r["type"] = t + " or_other"
+                first = False
 
 
 def add_instance_label(rng, form, langs):
@@ -174,6 +182,15 @@ def add_search(rng, form, langs, mixed=False):
                                    "appearance": "search('fruits')"})
 
 
+def add_dyn_default(rng, form, langs):
+    """The same default strings on questions of different types (`default_is_dynamic` parses them
+    through the shared `parse_expression` cache and treats `-` differently for date-like types)."""
+    pool = ["2 - 1", "x - y", "1 + 2", "2024-01-02", "a-b", "7 - 3 - 1", "now()"]
+    for i in range(rng.randint(2, 5)):
+        form["survey"].append({"type": rng.choice(["date", "text", "dateTime", "integer", "geopoint", "text"]),
+                               "name": f"dd{i}", **_lab(langs, f"D{i}"), "default": rng.choice(pool)})
+
+
 def add_dup_id(rng, form):
     st = (form.get("settings") or [{}])[0]
     st["id_string"] = rng.choice(["one", "my_form"])
@@ -217,9 +234,10 @@ def twin(form: dict) -> dict:
     return t
 
 
-def gen_c14_form(rng: random.Random, feature: str | None = None, big=False) -> tuple[dict, list[str]]:
+def gen_c14_form(rng: random.Random, feature: str | None = None, big=False, nl: int | None = None) -> tuple[dict, list[str]]:
     feats = [feature] if feature else rng.sample(FEATURES, k=rng.choice([1, 1, 2, 3]))
-    nl = rng.choice([0, 2, 2, 3]) if not ({"sparse_itext"} & set(feats)) else rng.choice([2, 3, 4])
+    if nl is None or (nl == 0 and "sparse_itext" in feats):
+        nl = rng.choice([0, 2, 2, 3]) if not ({"sparse_itext"} & set(feats)) else rng.choice([2, 3, 4])
     langs = rng.sample(LANG_POOL, k=nl)
     form = base_form(rng, langs, big=big)
     feats = sorted(feats, key=lambda f: f == "missing_header")  # removes columns: last
@@ -229,7 +247,7 @@ def gen_c14_form(rng: random.Random, feature: str | None = None, big=False) -> t
         elif f == "pulldata":
             add_pulldata(rng, form)
         elif f == "or_other":
-            add_or_other(rng, form)
+            add_or_other(rng, form, langs)
         elif f == "instance_label":
             add_instance_label(rng, form, langs)
         elif f == "external":
@@ -242,6 +260,8 @@ def gen_c14_form(rng: random.Random, feature: str | None = None, big=False) -> t
             add_search(rng, form, langs, mixed=True)
         elif f == "dup_id":
             add_dup_id(rng, form)
+        elif f == "dyn_default":
+            add_dyn_default(rng, form, langs)
         elif f == "entities":
             add_entities(rng, form)
         elif f == "missing_header":
@@ -250,13 +270,18 @@ def gen_c14_form(rng: random.Random, feature: str | None = None, big=False) -> t
 
 
 def batch(rng: random.Random, n: int, big=False) -> list[dict]:
-    """n cases {form, feats}; every feature occurs; about a fifth of the cases are twins of earlier ones."""
+    """n cases {form, feats}: every feature once with two languages and once without, then free
+    combinations; about a fifth of the cases are group<->repeat twins of the case before them."""
     out = []
     feats_cycle = list(FEATURES)
     rng.shuffle(feats_cycle)
+    k = 0
     while len(out) < n:
-        f = feats_cycle[len(out) % len(feats_cycle)] if len(out) < len(feats_cycle) * 2 else None
-        form, feats = gen_c14_form(rng, f, big=big)
+        directed = k < len(feats_cycle) * 2
+        f = feats_cycle[k % len(feats_cycle)] if directed else None
+        nl = (2 if k < len(feats_cycle) else 0) if directed else None
+        k += 1
+        form, feats = gen_c14_form(rng, f, big=big, nl=nl)
         out.append({"form": form, "feats": feats})
         if rng.random() < 0.25 and len(out) < n and any(r.get("type", "").startswith("begin ") for r in form["survey"]):
             out.append({"form": twin(form), "feats": [*feats, "twin"]})
